@@ -65,12 +65,43 @@ def _parser():
         p = hotxlfp.Parser()
         def on_cell(cell, done):
             from hotxlfp.helper.cell import to_label
-            _EVENTS.append('%s|%s|%d|%d' % (cell.label, to_label(cell.row, cell.col), bool(cell.row.is_absolute), bool(cell.col.is_absolute)))
+            # the parts are read through the tuple protocol of Cell (row, col = cell) and through its attributes
+            row, col = cell
+            back = to_label(row, col) if (row is cell.row and col is cell.col and cell[0] is row and cell[1] is col) else 'TUPLE<>ATTRIBUTES'
+            _EVENTS.append('%s|%s|%d|%d' % (cell.label, back, bool(cell.row.is_absolute), bool(cell.col.is_absolute)))
             done(1)
         p.on('callCellValue', on_cell)
-        p.on('callRangeValue', lambda start, end, done: (_EVENTS.append(start.label + ':' + end.label), done([[1, 2], [3, 4]])))
+
+        def corner(c):
+            from hotxlfp.helper.cell import to_label
+            try:
+                row, col = c
+                if row is not c.row or col is not c.col:
+                    return '%s|TUPLE<>ATTRIBUTES' % c.label
+                return '%s|%s|%d|%d|%d|%d' % (c.label, to_label(row, col), row.index, col.index, bool(row.is_absolute), bool(col.is_absolute))
+            except Exception as e:
+                return '%s|EXC %s' % (getattr(c, 'label', '?'), type(e).__name__)
+
+        def on_range(start, end, done):
+            _EVENTS.append(corner(start) + '~' + corner(end))
+            done([[1, 2], [3, 4]])
+        p.on('callRangeValue', on_range)
         _PARSER.append(p)
     return _PARSER[0]
+
+
+def function_names():
+    """the registered function names of the live code (sorted), or a fixed list when the registry cannot be read"""
+    try:
+        common.load_repo()
+        from hotxlfp.formulas import dispatcher
+        names = sorted(str(n) for n in dispatcher._registry_)
+        if names:
+            return names
+    except Exception:
+        pass
+    return ['ABS', 'AND', 'ATAN', 'ATAN2', 'DAY', 'IF', 'IMLOG10', 'IMLOG2', 'LOG', 'LOG10', 'MAX', 'MIN', 'N', 'NOT', 'NOW', 'OR',
+            'PI', 'SUM', 'T']
 
 
 # independent reference: bijective base-26 in shortlex order
@@ -213,6 +244,42 @@ def cases(rng, ctx):
             c2 = col if rng.random() < 0.6 else col.lower()
             refs.append(rng.choice(['', '$']) + c2 + rng.choice(['', '$']) + row)
         out.append({'kind': 'formula', 's': '+'.join(refs)})
+    # labels whose text spells a built-in function name (column LOG row 10, column ATAN row 2, column SUM row 5 ...): written
+    # without parentheses they are cells like any other, alone, in sums and as range corners
+    fnames = function_names()
+    digitnames = [n for n in fnames if label_shaped(n)]
+    alphanames = [n for n in fnames if n.isalpha() and n.isascii() and len(n) <= 4]
+    for _ in range(120 * scale):
+        def fl():
+            r = rng.random()
+            if r < 0.45 and digitnames:
+                x = rng.choice(digitnames)
+                if rng.random() < 0.3:           # a neighbour
+                    x = x.rstrip(string.digits) + str(int(x[len(x.rstrip(string.digits)):]) + rng.choice([-1, 1]))
+                    if not label_shaped(x):
+                        x = rng.choice(digitnames)
+            else:
+                x = rng.choice(alphanames or ['SUM']) + str(rng.randrange(1, 300))
+            if rng.random() < 0.3:
+                i = len(x.rstrip(string.digits))
+                x = rng.choice(['', '$']) + x[:i] + rng.choice(['', '$']) + x[i:]
+            return x if rng.random() < 0.6 else rng.choice([x.lower(), x.capitalize()])
+        if rng.random() < 0.7:
+            out.append({'kind': 'formula', 's': '+'.join(fl() for _k in range(rng.choice([1, 1, 2])))})
+        else:
+            out.append({'kind': 'formula', 's': rng.choice(['SUM(%s:%s)', '%s:%s']) % (fl(), fl())})
+    for f in ['LOG10', 'log10', 'Atan2', '$LOG$10', 'ATAN$2', 'LOG10+1'.replace('+1', '+A1'), 'SUM(LOG9:LOG10)', 'ATAN2:ATAN2']:
+        out.append({'kind': 'formula', 's': f})
+    # ranges: the corner cells the range listener receives are decomposed like any label (read through the tuple protocol
+    # of Cell): the first corner carries the smaller row part and the smaller column part, each with its own $ marker
+    for _ in range(250 * scale * (5 if thorough else 1)):
+        def lab2():
+            col = ''.join(rng.choice('ABCDXYZabz') for _k in range(rng.choice([1, 1, 2, 3, 4])))
+            row = str(rng.choice([rng.randrange(1, 30), rng.randrange(1, 1048577)]))
+            return rng.choice(['', '$']) + col + rng.choice(['', '$']) + row
+        a = lab2()
+        b = lab2() if rng.random() < 0.85 else a
+        out.append({'kind': 'formula', 's': rng.choice(['SUM(%s:%s)', '%s:%s', 'sum(%s:%s)']) % (a, b)})
     # non-labels
     # (ß ı ſ ﬁ ﬆ: characters that str.upper() turns into ASCII letters; K: the Kelvin sign, which str.lower() turns into k)
     junk_alphabet = 'Aa1$ -_.:\n\t١éАßıſﬁﬆ\u212a'
@@ -318,6 +385,26 @@ def oracle(c, impl_ans):
         ev = [common.dec_str(t) for t in impl_ans.split(' ')[1:] if t]
         f = c['s']
         if all(ord(ch) < 128 for ch in f):
+            inner = f[4:-1] if f[:4].upper() == 'SUM(' and f.endswith(')') else f
+            if inner.count(':') == 1 and all(label_shaped(x) for x in inner.split(':')):
+                def parts(x):
+                    x = x.upper()
+                    body = x.lstrip('$')
+                    letters = ''.join(ch for ch in x if ch in string.ascii_letters)
+                    digits = ''.join(ch for ch in x if ch in string.digits)
+                    return (int(digits) - 1, '$' in body, digits), (ref_index(letters), x.startswith('$'), letters)
+                (ra, ca), (rb, cb) = [parts(x) for x in inner.split(':')]
+                r0, r1 = (ra, rb) if ra[0] <= rb[0] else (rb, ra)
+                c0, c1 = (ca, cb) if ca[0] <= cb[0] else (cb, ca)
+
+                def want_corner(r, c2):
+                    lab = ('$' if c2[1] else '') + c2[2] + ('$' if r[1] else '') + r[2]
+                    return '%s|%s|%d|%d|%d|%d' % (lab, lab, r[0], c2[0], r[1], c2[1])
+                want = [want_corner(r0, c0) + '~' + want_corner(r1, c1)]
+                if ev != want:
+                    return ('the formula %r holds the range %r; the range events (per corner: label | recomposed parts | row index | '
+                            'column index | row $ | column $) are %r, expected %r' % (f, inner, ev, want))
+                return None
             labs = f.split('+')
             if all(label_shaped(x) for x in labs):
                 want = []
